@@ -37,6 +37,9 @@ def DEPOSIT_CONTRACT_TREE_DEPTH : LExpr := 32
 def JUSTIFICATION_BITS_LENGTH : LExpr := 4
 def ATTESTATION_SUBNET_COUNT : LExpr := 64
 def SYNC_COMMITTEE_SUBNET_COUNT : LExpr := 4
+-- NOTE: the bellatrix preset files list these two as preset values (256 and 32 in both published presets).
+-- zrnt hard-codes them as package constants (its SSZ types ignore the Spec fields of the same name), so a
+-- custom preset that changes them is outside what the correspondence run varies; they are literals here.
 def BYTES_PER_LOGS_BLOOM : LExpr := 256
 def MAX_EXTRA_DATA_BYTES : LExpr := 32
 
